@@ -57,6 +57,7 @@ class Loop:
         self.iters = []           # list of Path (one arbitrary iteration each)
         self.range = None         # range loc for range-for
         self.assigned = set()
+        self.pure = False
 
     def __repr__(self):
         return '<Loop %s %s %s iters=%d>' % (self.id, self.kind, self.site, len(self.iters))
@@ -1699,6 +1700,23 @@ class Evaluator:
             st.store[('fld', h, 'mapped')] = map0
             yield st, h
             return
+        if tc == 'multimap' and root_of(recv)[0] in ('field', 'this') and len(ts) >= 2 and (
+                name == 'emplace_hint' or (name == 'insert' and typeclass(qt((arg_nodes or [{}])[0] or {})) in ITERATORS)):
+            # among equal keys a hinted insertion lands next to the hint: only hints that give the same place as plain insertion
+            # (upper_bound of the key being inserted, or end(), which falls back to it) are modelled
+            hint = ts[0]
+            newkey = None
+            if name == 'emplace_hint':
+                newkey = ts[1]
+            elif isinstance(ts[-1], tuple) and ts[-1][:1] == ('nodeh',):
+                newkey = self.load(st, ('fld', ts[-1], 'key'), n)
+            elif isinstance(ts[-1], tuple) and ts[-1][:1] == ('pair',):
+                newkey = ts[-1][1]
+            fine = isinstance(hint, tuple) and len(hint) > 3 and hint[0] == 'q' and hint[2] == recv and (
+                hint[1] in ('end', 'cend') or (hint[1] == 'upper_bound' and len(hint[3]) == 1 and newkey is not None
+                                               and key_norm(hint[3][0]) == key_norm(newkey)))
+            if not fine:
+                self.unknown(st, 'hinted insertion into a multimap with a computed hint (place among equal keys not modelled)', n)
         if tc in ('multimap', 'map', 'umap') and name == 'insert' and ts and isinstance(ts[-1], tuple) and ts[-1] and ts[-1][0] == 'nodeh' \
                 and root_of(recv)[0] in ('field', 'this'):
             # m.insert(std::move(node)): the entry (key, mapped) as they stand in the handle now enters the container
@@ -2214,6 +2232,14 @@ class Evaluator:
                     cp = ('fld', ('var', '$decomp', v['id']), 'm%d' % idx)
                     st2.store[cp] = self.load(st2, term, v)
                     term = cp
+                if isinstance(term, tuple) and term and term[0] == 'guardval':
+                    # `const auto [guard, now] = lock_and_stamp();`: the binding owns the lock until the end of this scope
+                    gloc = ('var', bd.get('name'), bd['id'])
+                    mtx, held, emitted = term[1], term[2], term[3]
+                    if held and not emitted:
+                        st2.ev('lock', mtx, site_of(v, st2), 'guard')
+                    st2.guards.append((st2.scope, gloc, mtx, held))
+                    term = gloc
                 st2.env[bd['id']] = term
                 if inner and inner[0].get('kind') == 'DeclRefExpr':
                     st2.env[inner[0]['referencedDecl']['id']] = term
@@ -2245,6 +2271,45 @@ class Evaluator:
                         gv = ('guardval', ts[0], len(cargs) == 1, False)
                         st2.ev('ret', gv, site_of(n, st2))
                         yield st2, ('ret', gv)
+                    return
+        rqt = (inner[0].get('type', {}).get('desugaredQualType') or qt(inner[0]) or '')
+        if rqt.startswith('std::pair<') and ('lock_guard<' in rqt or 'unique_lock<' in rqt or 'scoped_lock<' in rqt) \
+                and e0.get('kind') in ('CXXConstructExpr', 'InitListExpr', 'CXXTemporaryObjectExpr'):
+            # `return {std::move(guard), now};`: the guard travels to the caller inside the pair (ownership moves, no release here)
+            cargs = [c for c in e0.get('inner', []) if c.get('kind')]
+            if len(cargs) == 2:
+                vals = []
+                ok = True
+                cur = st
+                for a in cargs:
+                    x = self.strip(a)
+                    while x.get('kind') in ('CallExpr', 'CXXConstructExpr', 'MaterializeTemporaryExpr', 'CXXBindTemporaryExpr') and \
+                            len([c for c in x.get('inner', []) if c.get('kind')]) in (1, 2) and typeclass(qt(x)) == 'lockguard':
+                        kids = [c for c in x.get('inner', []) if c.get('kind')]
+                        x = self.strip(kids[-1])
+                    if typeclass(qt(a)) == 'lockguard':
+                        g = None
+                        if x.get('kind') == 'DeclRefExpr':
+                            gl = cur.env.get(x['referencedDecl']['id'])
+                            for i, gg in enumerate(cur.guards):
+                                if gg[1] == gl:
+                                    g = cur.guards.pop(i)
+                                    break
+                        if g is None:
+                            ok = False
+                            break
+                        vals.append(('guardval', g[2], g[3], True))
+                    else:
+                        got = list(self.rv(a, cur))
+                        if len(got) != 1:
+                            ok = False
+                            break
+                        cur, v1 = got[0]
+                        vals.append(v1)
+                if ok:
+                    t = ('pair', vals[0], vals[1])
+                    cur.ev('ret', t, site_of(n, cur))
+                    yield cur, ('ret', t)
                     return
         if qt(inner[0]) == 'bool' and e0.get('kind') in ('BinaryOperator', 'CXXOperatorCallExpr', 'UnaryOperator'):
             # `return a != b;` is normalised to `if (a != b) return true; else return false;` (same behaviour, one more branch)
@@ -2499,6 +2564,32 @@ class Evaluator:
         w(node)
         return out
 
+    @staticmethod
+    def loop_is_pure(L):
+        """no iteration (or condition evaluation) of the loop writes a member, calls a mutating container operation, takes a lock, draws a
+        random number or contains something unmodelled: only locals change"""
+        def pure(paths):
+            for p in paths:
+                for e in p.trace:
+                    k = e[0]
+                    if k in ('wr', 'call', 'atomic', 'swap', 'iota', 'lock', 'unlock', 'relock', 'unknown', 'rng', 'delete', 'stale-pos', 'now', 'fence'):
+                        if k == 'call' and isinstance(e[1], tuple) and e[1][:1] == ('var',):
+                            return False      # appends to a local container: its contents change (keep the general treatment)
+                        return False
+                    if k == 'loop' and not (getattr(e[1], 'pure', False)):
+                        return False
+            return True
+        return pure(L.iters) and pure(L.cond_paths)
+
+    def havoc_locals(self, st, ids, lid, tag):
+        for vid in ids:
+            b = st.env.get(vid)
+            if b is not None and isinstance(b, tuple) and b[0] in ('var', 'p'):
+                cur = st.store.get(b)
+                from_param = b[0] == 'p' or (cur is not None and root_of(cur)[0] == 'param')
+                st.store[b] = ('lv', b[1], lid, tag, 'param') if from_param else ('lv', b[1], lid, tag, b[2] if len(b) > 2 else None)
+        st.decided.clear()
+
     def havoc(self, st, ids, lid, tag):
         st.era += 1
         for loc in list(st.store):
@@ -2652,6 +2743,7 @@ class Evaluator:
                     else:
                         L.iters.append(Path(st_b.trace, flow[1], 'ret', st_b))
                         outs.append((st_b, flow))
+            L.pure = self.loop_is_pure(L) and not outs
             pf = self.prefill_of(L, range_info, st, lid) if kind == 'range' else None
             if pf is not None:
                 st.rangecopy[pf] = range_info[0]
@@ -2665,8 +2757,12 @@ class Evaluator:
                 yield r, flow
             # ---- continuation after the loop
             saved_abs, saved_pres = set(st.absent), set(st.present)
-            self.havoc(st, ids, lid, 'post')
-            self.keep_presence(st, L, saved_abs, saved_pres)
+            if L.pure:
+                # no iteration writes anything but its own locals: member state after the loop is what it was before
+                self.havoc_locals(st, ids, lid, 'post')
+            else:
+                self.havoc(st, ids, lid, 'post')
+                self.keep_presence(st, L, saved_abs, saved_pres)
             if reseed is not None:
                 vloc = st.env.get(reseed[0]['id'])
                 vals = list(self.rv(reseed[1], st))
